@@ -280,9 +280,14 @@ def r_numbering(repo, rep, R='R7.3'):
                                 if isinstance(h_, ast.FunctionDef) and h_ is not fn:
                                     hp_ = [a_.arg for a_ in h_.args.args]
                                     for c2 in ast.walk(h_):
+                                        used = None
                                         if isinstance(c2, ast.Call) and isinstance(c2.func, ast.Attribute) and c2.func.attr == 'set' and len(c2.args) == 2 \
                                                 and isinstance(c2.args[0], ast.Constant) and c2.args[0].value == 'sentence':
                                             used = {x.id for x in ast.walk(c2.args[1]) if isinstance(x, ast.Name)} & set(hp_)
+                                        elif isinstance(c2, ast.Call) and isinstance(c2.func, ast.Attribute) and c2.func.attr == 'format' and len(c2.args) >= 2:
+                                            # ... or formats them into the record's heading: the first number is the sentence's
+                                            used = {x.id for x in ast.walk(c2.args[0]) if isinstance(x, ast.Name)} & set(hp_)
+                                        if used is not None:
                                             for pn in used:
                                                 k_ = hp_.index(pn)
                                                 if k_ < len(n.args):
@@ -757,6 +762,9 @@ def check(repo, rep, tier):
     r_conll_heads(repo, rep)
     r_polarity(repo, rep)
     r_numbering(repo, rep)
+    from ..lints import r_templates_constant
+    r_templates_constant(repo, rep, 'R7.3', repo.py_files('depccg/printer'),
+                         'a word or category text that contains { } is then taken for a replacement field: the record that is written is not the one the encoder produced')
     r_flat_list(repo, rep)
     r_traversal(repo, rep)
     r_deriv_measures(repo, rep)
